@@ -201,8 +201,14 @@ pub fn gen_dec(rng: &mut Rng) -> Dec {
 				Dec { neg: rng.chance(1, 4), digits: base.to_string(), exp10: e - (base.len() as i32 - 1) * (rng.below(2) as i32) }
 			}
 			12 => {
-				// subnormals and the extremes of the range
-				let x = f64::from_bits(rng.next_u64() & 0x000f_ffff_ffff_ffff | if rng.chance(1, 3) { 0x7fe0_0000_0000_0000 } else { 0 });
+				// subnormals and the extremes of the range, the named extreme doubles and their neighbours
+				let named = [f64::MAX, f64::MIN_POSITIVE, 5e-324, f64::EPSILON, 9007199254740992.0, 1.7976931348623155e308, 2.2250738585072009e-308, 4.4501477170144023e-308, 1e308, 1e-323, 0.1, 0.3, 1e23, 8.41e21, 2.2250738585072011e-308];
+				let x = if rng.chance(1, 3) {
+					let x = named[rng.below(named.len())];
+					f64::from_bits(x.to_bits().wrapping_add(rng.below(3) as u64).wrapping_sub(1))
+				} else {
+					f64::from_bits(rng.next_u64() & 0x000f_ffff_ffff_ffff | if rng.chance(1, 3) { 0x7fe0_0000_0000_0000 } else { 0 })
+				};
 				if !x.is_finite() || x == 0.0 {
 					continue;
 				}
